@@ -284,12 +284,44 @@ func fnMatch(args []object.Object) object.Object {
 	return &object.Boolean{Value: false}
 }
 
+// numericLess reports whether a is numerically smaller than b, using the
+// same rules as the language's < operator (integers compare as integers,
+// an integer mixed with a float compares in floating point).  ok is false
+// unless both arguments are numbers.
+func numericLess(a, b object.Object) (less bool, ok bool) {
+	switch x := a.(type) {
+	case *object.Integer:
+		switch y := b.(type) {
+		case *object.Integer:
+			return x.Value < y.Value, true
+		case *object.Float:
+			return float64(x.Value) < y.Value, true
+		}
+	case *object.Float:
+		switch y := b.(type) {
+		case *object.Integer:
+			return x.Value < float64(y.Value), true
+		case *object.Float:
+			return x.Value < y.Value, true
+		}
+	}
+	return false, false
+}
+
 // fnMax is the implementation of our `max` function.
 func fnMax(args []object.Object) object.Object {
 
 	// We expect two arguments
 	if len(args) != 2 {
 		return &object.Null{}
+	}
+
+	// Numbers are compared numerically.
+	if less, ok := numericLess(args[0], args[1]); ok {
+		if less {
+			return args[1]
+		}
+		return args[0]
 	}
 
 	// Create an array.  Yeah.
@@ -314,6 +346,14 @@ func fnMin(args []object.Object) object.Object {
 	// We expect two arguments
 	if len(args) != 2 {
 		return &object.Null{}
+	}
+
+	// Numbers are compared numerically.
+	if less, ok := numericLess(args[1], args[0]); ok {
+		if less {
+			return args[1]
+		}
+		return args[0]
 	}
 
 	// Create an array.  Yeah.
